@@ -38,7 +38,7 @@ import (
 )
 
 const (
-	hangAfter  = 40 * time.Second // a decoder call on < 100 KB that has not returned by then is not coming back
+	hangAfter  = 25 * time.Second // a decoder call on < 100 KB that has not returned by then is not coming back
 	hangHeapMB = 200              // ... nor is one whose heap grew by this much
 	exitLoop   = 7
 )
@@ -178,6 +178,8 @@ func main() {
 	out := flag.String("trace", "", "trace output (appended when -from > 0)")
 	from := flag.Int("from", 0, "skip the first N work items (restart after a loop)")
 	nrand := flag.Int("rand", 2000, "random strings per decoder")
+	hexIn := flag.String("hex", "", "mode one: the input")
+	codec := flag.String("codec", "bolt", "mode one: bolt|boltv2|dubbo|dubbothrift|tars|h2|hpack")
 	flag.Parse()
 	if !vh.HooksCompiled() {
 		vh.Must(fmt.Errorf("built without -tags verif"), "hooks")
@@ -192,6 +194,20 @@ func main() {
 		runH2(*cases, *out, *from, *nrand)
 	case "e2e":
 		runE2E(*cases, *out)
+	case "one": // replay of one input: -codec <name|h2|hpack> -hex <bytes>
+		in, err := hex.DecodeString(*hexIn)
+		vh.Must(err, "hex")
+		for _, t := range tails {
+			t0 := time.Now()
+			switch *codec {
+			case "h2":
+				fmt.Printf("%s %+v %v\n", t, readFrameOnce(memoryBehind(in, len(in), t), t), time.Since(t0))
+			case "hpack":
+				fmt.Printf("%s %+v %v\n", t, hpackOnce(memoryBehind(in, len(in), t), t), time.Since(t0))
+			default:
+				fmt.Printf("%s %+v %v\n", t, decodeOnce(*codec, memoryBehind(in, len(in), t), t), time.Since(t0))
+			}
+		}
 	default:
 		fmt.Fprintln(os.Stderr, "unknown mode")
 		os.Exit(3)
